@@ -464,6 +464,80 @@ func grpcTagsRecycled(res *vkit.Result) {
 	res.Eval("grpc-tags-recycled", true)
 }
 
+// ---------- (4c) one sample per executed gRPC scenario step, also when a step fails before the call ----------
+
+// grpcScenarioStepSamples: step "auth" is answered with an error status (the scenario goes on:
+// a status is a result), step "list" has a preprocessor reading auth's response, which is not
+// there — the step is started and fails before anything is sent. Both steps are executed
+// steps: one sample each (auth with the mapped status, list as failed), per shot.
+func grpcScenarioStepSamples(res *vkit.Result) {
+	tgt, err := vkit.NewGRPCTarget()
+	if err != nil {
+		res.Inconclusive(true, "grpc target: %v", err)
+		return
+	}
+	defer tgt.Close()
+	tgt.Status = func(rec *vkit.CallRec) (codes.Code, string) {
+		if a, ok := rec.Req.(*server.AuthRequest); ok && a.Login == "rejected" {
+			return codes.InvalidArgument, "scripted"
+		}
+		return codes.OK, ""
+	}
+	yaml := `variable_sources:
+  - type: "variables"
+    name: "v"
+    variables: {"word": "abc"}
+calls:
+  - name: "auth"
+    tag: "auth"
+    call: "target.TargetService.Auth"
+    payload: '{"login": "rejected", "pass": "x"}'
+  - name: "list"
+    tag: "list"
+    call: "target.TargetService.List"
+    preprocessors:
+      - type: "prepare"
+        mapping: {"tok": "request.auth.postprocessor.token"}
+    payload: '{"token": "{{.request.list.preprocessor.tok}}"}'
+  - name: "tmpl"
+    tag: "tmpl"
+    call: "target.TargetService.Hello"
+    payload: '{"name": "p-{{index .source.v.word 9}}"}'
+scenarios:
+  - name: "shop"
+    weight: 1
+    min_waiting_time: 0
+    requests: ["auth", "list"]
+  - name: "tpl"
+    weight: 1
+    min_waiting_time: 0
+    requests: ["tmpl"]
+`
+	base := vkit.WriteMem(nil)
+	vkit.RemoveMem(base)
+	sp := base + ".yaml"
+	_ = vkit.WriteMemAt(sp, []byte(yaml))
+	defer vkit.RemoveMem(sp)
+	const shots = 8
+	samples, rr, err := runPool(pool(map[string]any{"type": "grpc/scenario", "file": sp, "limit": shots},
+		map[string]any{"type": "grpc/scenario", "target": tgt.Addr}, 2), 60*time.Second)
+	c := map[string]any{"gun": "grpc/scenario", "scenarios": "shop: auth (answered InvalidArgument) → list (preprocessor reads auth's response); tpl: a payload template that fails while rendered", "shots": shots}
+	if err != nil || rr.Err != nil || rr.Hang {
+		res.Violate("C10/grpc-scenario-steps/run", fmt.Sprintf("pool failed: %v %v", err, rr.Err), c)
+		return
+	}
+	got := map[string]int{}
+	for _, s := range samples {
+		got[fmt.Sprintf("%s=%d", strings.Split(s.Tags, "|")[0], s.Proto)]++
+	}
+	want := map[string]int{"shop.auth=400": shots / 2, "shop.list=0": shots / 2, "tpl.tmpl=0": shots / 2}
+	if fmt.Sprint(got) != fmt.Sprint(want) {
+		res.Violate("C10/grpc-scenario-steps/samples", fmt.Sprintf("samples per step and code %v, want one per executed step: %v", got, want), c)
+	}
+	res.Count("grpc_scenario_step_samples", int64(len(samples)))
+	res.Eval("grpc-scenario-steps", true)
+}
+
 // ---------- (4) gRPC codes ----------
 
 var grpcTable = map[codes.Code]int{codes.OK: 200, codes.Canceled: 499, codes.InvalidArgument: 400, codes.DeadlineExceeded: 504, codes.NotFound: 404,
@@ -838,6 +912,7 @@ func main() {
 	tagsFormats(res)
 	grpcCodes(res)
 	grpcTagsRecycled(res)
+	grpcScenarioStepSamples(res)
 	httpScenario(res)
 	recycledSamples(res, 4, 150, 400)
 	recycledSamples(res, 1, 60, 120)
